@@ -3,6 +3,7 @@ package main
 import (
 	"fmt"
 	"go/ast"
+	"go/types"
 )
 
 const (
@@ -100,25 +101,37 @@ func driverRules(c *Ctx, r1, r2 string) {
 
 	// classify the call sites
 	type site struct {
-		n    *GNode
-		cs   *CallSite
-		kind string
+		n      *GNode
+		cs     *CallSite
+		kind   string
+		helper *helperShape
 	}
 	var p1sop, p1part, p2sop, p2part, rb []site
 	for _, n := range g.Nodes {
 		for _, cs := range n.Calls {
+			// a participant phase driven through an iteration helper (`t.forEach(func(ot) error { return ot.PhaseX(ctx) })`)
+			if ph, sh := c.participantHelper(f, cs); sh != nil {
+				c.Analysed(sh.fn)
+				switch ph {
+				case kI2P1:
+					p1part = append(p1part, site{n, cs, "participant", sh})
+				case kI2P2:
+					p2part = append(p2part, site{n, cs, "participant", sh})
+				}
+				continue
+			}
 			k := c.sptCallKind(f, cs)
 			switch {
 			case cs.Key == kI2P1 && k == "sop":
-				p1sop = append(p1sop, site{n, cs, k})
+				p1sop = append(p1sop, site{n, cs, k, nil})
 			case cs.Key == kI2P1 && k == "participant":
-				p1part = append(p1part, site{n, cs, k})
+				p1part = append(p1part, site{n, cs, k, nil})
 			case cs.Key == kI2P2 && k == "sop":
-				p2sop = append(p2sop, site{n, cs, k})
+				p2sop = append(p2sop, site{n, cs, k, nil})
 			case cs.Key == kI2P2 && k == "participant":
-				p2part = append(p2part, site{n, cs, k})
+				p2part = append(p2part, site{n, cs, k, nil})
 			case cs.Key == kSPTRollback:
-				rb = append(rb, site{n, cs, k})
+				rb = append(rb, site{n, cs, k, nil})
 			case cs.Key == kI2P1 || cs.Key == kI2P2:
 				c.Violated(r1, "Commit: unclassified "+cs.Key, cs.Call.Pos(), "a phase call whose receiver is neither the SOP transaction nor a participant of otherTransactions", nil)
 			}
@@ -155,7 +168,7 @@ func driverRules(c *Ctx, r1, r2 string) {
 		// and the gate dominates the targets (for a participant loop: the loop head does, and
 		// the loop-coverage obligation below shows that every iteration makes the call)
 		dom := gate.n
-		if gate.kind == "participant" {
+		if gate.kind == "participant" && gate.helper == nil {
 			if h := enclosingRangeHead(g, gate.n); h != nil {
 				dom = h
 			}
@@ -184,6 +197,15 @@ func driverRules(c *Ctx, r1, r2 string) {
 		s    site
 		name string
 	}{{p1part[0], "Phase1Commit"}, {p2part[0], "Phase2Commit"}} {
+		if sh := lp.s.helper; sh != nil {
+			c.Check(sh.coversAll, r1, "Commit: participant "+lp.name+" loop covers every participant", lp.s.cs.Call.Pos(),
+				"the iteration helper "+shortKey(sh.fn.Key)+" calls the function on every element of otherTransactions", "the iteration helper "+shortKey(sh.fn.Key)+" can skip a participant", nil)
+			if lp.name == "Phase1Commit" {
+				c.Check(!sh.earlyExit || sh.exitsOnlyWithError, r1, "Commit: participant Phase1Commit loop is left only by exhaustion or failure", lp.s.cs.Call.Pos(),
+					"the helper leaves its loop early only with a non-nil error", "the iteration helper can stop early without reporting an error (later participants are not prepared, yet phase 2 runs)", nil)
+			}
+			continue
+		}
 		head := enclosingRangeHead(g, lp.s.n)
 		if head == nil {
 			c.Violated(r1, "Commit: participant "+lp.name+" loop", lp.s.cs.Call.Pos(), "participant call is not inside a range loop over otherTransactions", nil)
@@ -242,8 +264,15 @@ func driverRules(c *Ctx, r1, r2 string) {
 	gr := w.G(fr)
 	c.Analysed(fr)
 	var rbsop, rbpart []*GNode
+	var rbHelper *helperShape
 	for _, n := range gr.Nodes {
 		for _, cs := range n.Calls {
+			if ph, sh := c.participantHelper(fr, cs); sh != nil && ph == kI2RB {
+				c.Analysed(sh.fn)
+				rbpart = append(rbpart, n)
+				rbHelper = sh
+				continue
+			}
 			if cs.Key != kI2RB {
 				continue
 			}
@@ -261,6 +290,14 @@ func driverRules(c *Ctx, r1, r2 string) {
 	}
 	offs := gr.MustPrecede(func(n *GNode) bool { return n == rbsop[0] }, isExit)
 	c.Offences(gr, offs, r2, "Rollback: SOP Rollback on every path", rbsop[0].Ast.Pos(), "every path to the exit calls SOP's Rollback", "exit reachable without SOP Rollback")
+	if rbHelper != nil {
+		offs = gr.MustPrecede(func(n *GNode) bool { return n == rbpart[0] }, isExit)
+		c.Offences(gr, offs, r2, "Rollback: participant loop on every path", rbpart[0].Ast.Pos(), "every path to the exit passes the iteration over participants", "exit reachable without iterating the participants")
+		c.Check(rbHelper.coversAll, r2, "Rollback: every participant is rolled back", rbpart[0].Ast.Pos(), "the iteration helper calls the function on every element", "the iteration helper can skip a participant", nil)
+		c.Check(!rbHelper.earlyExit, r2, "Rollback: no early exit from the participant loop", rbpart[0].Ast.Pos(), "the iteration helper always visits all participants",
+			"the iteration helper "+shortKey(rbHelper.fn.Key)+" stops at the first participant whose Rollback returns an error: the participants registered after it are never asked to roll back", nil)
+		return
+	}
 	head := enclosingRangeHead(gr, rbpart[0])
 	if head == nil {
 		c.Violated(r2, "Rollback: participant loop", rbpart[0].Ast.Pos(), "participant Rollback is not inside a range loop", nil)
@@ -320,4 +357,100 @@ func runC16(c *Ctx) {
 		names = append(names, f.Key)
 	}
 	c.Check(ok, r3, "writers of SinglePhaseTransaction.otherTransactions", fld.Pos(), fmt.Sprintf("writers: %v", names), fmt.Sprintf("unexpected writers: %v", names), nil)
+}
+
+// participantHelper: call site cs invokes a method of SinglePhaseTransaction (body in scope) passing a function
+// literal that calls one of the phase methods on its parameter, and the method ranges over t.otherTransactions
+// calling that function value on every element. Returns the phase key the literal calls and the helper's shape.
+type helperShape struct {
+	fn                 *Func
+	coversAll          bool // every iteration calls the function value on the range value
+	earlyExit          bool // the loop body can leave the function without finishing the iteration over all participants
+	exitsOnlyWithError bool
+}
+
+func (c *Ctx) participantHelper(f *Func, cs *CallSite) (string, *helperShape) {
+	w := c.W
+	h := w.CalleeFunc(cs)
+	if h == nil || h.Obj == nil || len(cs.Call.Args) == 0 {
+		return "", nil
+	}
+	sig := h.Obj.Type().(*types.Signature)
+	if sig.Recv() == nil || typeBaseName(sig.Recv().Type()) != "SinglePhaseTransaction" {
+		return "", nil
+	}
+	var lit *ast.FuncLit
+	argIdx := -1
+	for i, a := range cs.Call.Args {
+		if l, ok := ast.Unparen(a).(*ast.FuncLit); ok {
+			lit, argIdx = l, i
+		}
+	}
+	if lit == nil || argIdx >= sig.Params().Len() {
+		return "", nil
+	}
+	lf := w.byLit[lit]
+	if lf == nil || lit.Type.Params.NumFields() != 1 {
+		return "", nil
+	}
+	// the literal calls a phase method on its own parameter
+	linfo := lf.Pkg.TypesInfo
+	lpar := linfo.Defs[lit.Type.Params.List[0].Names[0]]
+	phase := ""
+	for _, x := range w.Sites(lf) {
+		switch x.Key {
+		case kI2P1, kI2P2, kI2RB, kI2Begin:
+			if sel, ok := x.Call.Fun.(*ast.SelectorExpr); ok {
+				if id, ok := ast.Unparen(sel.X).(*ast.Ident); ok && linfo.Uses[id] == lpar {
+					phase = x.Key
+				}
+			}
+		}
+	}
+	if phase == "" {
+		return "", nil
+	}
+	// the helper's shape
+	fnPar := sig.Params().At(argIdx)
+	g := w.G(h)
+	hinfo := h.Pkg.TypesInfo
+	sh := &helperShape{fn: h}
+	var head *GNode
+	for _, n := range g.Nodes {
+		if n.RangeHead == nil {
+			continue
+		}
+		if sx, ok := ast.Unparen(n.RangeHead.X).(*ast.SelectorExpr); ok {
+			if sl := hinfo.Selections[sx]; sl != nil && sl.Obj().Name() == "otherTransactions" {
+				head = n
+			}
+		}
+	}
+	if head == nil {
+		return phase, sh
+	}
+	rv, _ := head.RangeHead.Value.(*ast.Ident)
+	callsFn := func(n *GNode) bool {
+		for _, x := range n.Calls {
+			if v, ok := x.Callee.(*types.Var); ok && v == fnPar && len(x.Call.Args) == 1 {
+				if id, ok := ast.Unparen(x.Call.Args[0]).(*ast.Ident); ok && rv != nil && hinfo.Uses[id] == hinfo.Defs[rv] {
+					return true
+				}
+			}
+		}
+		return false
+	}
+	sh.coversAll = len(g.MustFollowFrom(bodyStarts(head), callsFn, func(n *GNode) bool { return n == head || n.Exit })) == 0 &&
+		len(g.MustPrecede(func(n *GNode) bool { return n == head }, isExit)) == 0
+	r := g.Reach(bodyStarts(head), func(n *GNode) bool { return n == head }, nil)
+	sh.exitsOnlyWithError = true
+	for _, n := range g.Nodes {
+		if r.Seen[n.ID] && n != head && (n.Ret != nil || n.Exit) {
+			sh.earlyExit = true
+			if n.Ret != nil && g.ClassifyReturn(n) != RetNonNil {
+				sh.exitsOnlyWithError = false
+			}
+		}
+	}
+	return phase, sh
 }
